@@ -84,6 +84,14 @@ def metamorphic(ctx):
             kinds.append("a non-invertible transform makes every drawing call draw nothing")
         elif k == 0:
             p = scene.rand_path(rng, W, H, curves=0.5)       # curved paths too: any device-space tolerance must not depend on T
+            if rng.random() < 0.4:
+                # zoom factors and offsets as people type them: the f32 products land within an ulp of the quarter-pixel grid,
+                # where Path::transform and the fill's own mapping must still agree bit for bit
+                sx = rng.choice([1.1, 0.3, 2.5, 1.25, 0.7, 1.5, 0.1, 3.3, 0.9, 1.2, 0.6])
+                sy = sx if rng.random() < 0.6 else rng.choice([1.1, 0.3, 2.5, 0.7, -1.1])
+                xf = (sx, 0.0, 0.0, sy, rng.randrange(-30, 60) / 10.0, rng.randrange(-30, 60) / 10.0)
+                xt = scene.xf_tokens(xf)
+                p = scene.path_tokens(scene.grid_polygon(rng, W * 3, H * 3), rng.randrange(2))
             s = "solid " + gen.hexpx(gen.premul_pixel(rng)); o = scene.rand_opts(rng)
             A.append("scene %d %s ; xf %s ; fill %s %s %s" % (len(A), hdr, xt, p, s, o))
             B.append("scene %d %s ; xf %s ; tfill %s %s %s" % (len(B), hdr, xt, p, s, o))
@@ -111,6 +119,19 @@ def metamorphic(ctx):
             A.append("scene %d %s ; xf %s ; cliprect 1 1 2 2 ; %s" % (len(A), hdr, xt, op))
             B.append("scene %d %s ; %s" % (len(B), hdr, op))
             kinds.append("copy_surface / blend_surface ignore transform and clip")
+    # many more of the cheap "typed numbers" pairs: fill under a decimal zoom vs fill of Path::transform of it (about one
+    # polygon in fifty has a vertex within an ulp of a quarter-pixel boundary)
+    for _ in range(500 if ctx.tier == "quick" else 5000):
+        W, H = rng.randrange(4, 13), rng.randrange(4, 13)
+        hdr = "%d %d I %s" % (W, H, " ".join(["00000000"] * (W * H)))
+        sx = rng.choice([1.1, 0.3, 2.5, 1.25, 0.7, 1.5, 0.1, 3.3, 0.9, 1.2, 0.6])
+        sy = sx if rng.random() < 0.6 else rng.choice([1.1, 0.3, 2.5, 0.7, -1.1])
+        xt = scene.xf_tokens((sx, 0.0, 0.0, sy, rng.randrange(-30, 60) / 10.0, rng.randrange(-30, 60) / 10.0))
+        p = scene.path_tokens(scene.grid_polygon(rng, W * 2, H * 2), rng.randrange(2))
+        o = "solid ffffffff 3 %d %d" % (FB(1.0), rng.randrange(2))
+        A.append("scene %d %s ; xf %s ; fill %s %s" % (len(A), hdr, xt, p, o))
+        B.append("scene %d %s ; xf %s ; tfill %s %s" % (len(B), hdr, xt, p, o))
+        kinds.append("fill under T == fill of Path::transform(T) under the identity")
     for kind_, a_, b_ in core.corpus_pairs("C11"):      # pairs kept from earlier failures run too
         ta, tb = a_.split(" ", 2), b_.split(" ", 2)
         A.append("%s %d %s" % (ta[0], len(A), ta[2])); B.append("%s %d %s" % (tb[0], len(B), tb[2])); kinds.append(kind_)
